@@ -1283,11 +1283,17 @@ def bessel(c, kind="J", nu=1):
 
 # ============================================================================ C19 builders
 @builder
-def two_rules(c, r1=("default", 2), r2=("default", 3), itype="cell"):
-    """Two integrals with different rules over the same subdomain sharing a coefficient (names embed the rule ids)."""
+def two_rules(c, r1=("default", 2), r2=("default", 3), itype="cell", same=False, arity=1):
+    """Two integrals with different rules over the same subdomain sharing a coefficient (names embed the rule ids).
+    same=True: the SAME integrand under both rules (identical factorisation graphs: per-rule caches keyed too coarsely clash)."""
     V = c.V("Lagrange", 1)
     f = Coefficient(V)
     v = TestFunction(V)
+    if same:
+        u = TrialFunction(V)
+        g = f * u * v if arity == 2 else f * v
+        return g * measure(itype, metadata={"quadrature_degree": int(r1[1]), **({"quadrature_rule": r1[0]} if r1[0] != "default" else {})}) + \
+            g * measure(itype, metadata={"quadrature_degree": int(r2[1]), **({"quadrature_rule": r2[0]} if r2[0] != "default" else {})})
     def md(r):
         m = {"quadrature_degree": int(r[1])}
         if r[0] != "default":
